@@ -161,6 +161,32 @@ def build_harness(race=False, extra_overlay=None, name=None):
     return out, ""
 
 
+INSTRUMENTED_FILES = ["workflow/workflow.go", "internal/step/plugin/provider.go", "internal/step/foreach/provider.go"]
+
+
+def build_instrumented(race=False):
+    """Schedule-point instrumented harness: overlay copies of the run loop and both providers (from the current tree)."""
+    tool = os.path.join(BUILD, "vinstrument")
+    rc, o, e = sh(["go", "build", "-o", tool, "."], cwd=os.path.join(VERIF, "instrument"), env=GOENV, timeout=600)
+    if rc != 0:
+        return None, None, "instrumenter build failed: " + e
+    idir = os.path.join(BUILD, "instr")
+    shutil.rmtree(idir, ignore_errors=True)
+    os.makedirs(idir)
+    ov, pts = os.path.join(idir, "overlay.json"), os.path.join(idir, "points.json")
+    rc, o, e = sh([tool, "-repo", REPO, "-out", idir, "-overlay", ov, "-points", pts,
+                   "-vsched", os.path.join(VERIF, "harness", "vsched", "vsched.go")] + INSTRUMENTED_FILES, timeout=600)
+    if rc != 0:
+        return None, None, "instrumentation failed: " + o + e
+    out = os.path.join(BUILD, "vharness-instr" + ("-race" if race else ""))
+    env = dict(GOENV, VERIF_OVERLAY_EXTRA=ov, VERIF_TAGS="verif vsched")
+    cmd = [os.path.join(VERIF, "bin", "build-harness"), out] + (["-race"] if race else [])
+    rc, o, e = sh(cmd, env=env, timeout=1800)
+    if rc != 0:
+        return None, None, o + e
+    return out, json.load(open(pts)), ""
+
+
 def arcadrv():
     return os.path.join(LEAN, ".lake", "build", "bin", "arcadrv")
 
@@ -278,8 +304,11 @@ class Check:
         os.makedirs(os.path.join(VERIF, "evidence"), exist_ok=True)
         os.makedirs(os.path.join(VERIF, "replays"), exist_ok=True)
         rc = 0
-        for fp, what in self.known_hits:
-            print("KNOWN-FINDING: property=%s %s" % (self.pid, what))
+        hit = {fp for fp, _ in self.known_hits}
+        for k in load_known():
+            if k.get("property") == self.pid and k.get("status") == "known":
+                print("KNOWN-FINDING: property=%s %s [%s]" % (self.pid, k.get("what", ""),
+                      "reproduced in this run" if k.get("fingerprint") in hit else "not exercised in this run"))
         # broken obligations without a concrete failing input
         concrete = [v for v in self.violations if v["replay"].get("kind") != "obligation-failed"]
         printed = set()
